@@ -130,6 +130,36 @@ pub fn cases(thorough: bool) -> Vec<Case> {
             }
         }
     }
+    // aliased and colliding keys: every multi-key command with the same key in every key position, and with
+    // a second key that lives in the same storage shard as the first (a seeded change that kept a shard lock while
+    // looking at the next key deadlocked the command thread only for such pairs)
+    {
+        let shard = |k: &[u8]| -> u64 {
+            // the engine's shard function (FNV-1a 64 of the key, modulo its 16 shards)
+            let mut h: u64 = 0xcbf29ce484222325;
+            for &b in k {
+                h ^= b as u64;
+                h = h.wrapping_mul(0x100000001b3);
+            }
+            h % 16
+        };
+        let sibling: Vec<u8> = (0..10_000).map(|i| format!("sib{}", i).into_bytes()).find(|c| shard(c) == shard(b"k")).unwrap_or_else(|| b"k".to_vec());
+        let multi: Vec<Vec<&str>> = vec![
+            vec!["DEL", "k", "K2"], vec!["EXISTS", "k", "K2"], vec!["MGET", "k", "K2"], vec!["MSET", "k", "v", "K2", "w"], vec!["RENAME", "k", "K2"], vec!["RENAMENX", "k", "K2"],
+            vec!["SUNION", "k", "K2"], vec!["SINTER", "k", "K2"], vec!["SDIFF", "k", "K2"], vec!["SUNION", "k", "K2", "k"], vec!["SINTER", "k", "K2", "k"], vec!["SDIFF", "k", "K2", "k"],
+            vec!["BLPOP", "k", "K2", "1"], vec!["BRPOP", "k", "K2", "1"], vec!["WATCH", "k", "K2"], vec!["XREAD", "STREAMS", "k", "K2", "0-0", "0-0"],
+            vec!["XREADGROUP", "GROUP", "g", "c", "STREAMS", "k", "K2", ">", ">"], vec!["EVAL", "return redis.call('SINTER', KEYS[1], KEYS[2])", "2", "k", "K2"],
+            vec!["EVAL", "return redis.call('RENAME', KEYS[1], KEYS[2])", "2", "k", "K2"],
+        ];
+        for cmdline in multi.iter() {
+            for (vc, second) in [("same-key-twice", b"k".to_vec()), ("second-key-in-the-same-shard", sibling.clone())] {
+                let cmd: Vec<Vec<u8>> = cmdline.iter().map(|a| if *a == "K2" { second.clone() } else { a.as_bytes().to_vec() }).collect();
+                for s in 0..7 {
+                    out.push(Case { name: cmdline[0].to_string(), cmd: cmd.clone(), pos: 2, vclass: vc.to_string(), state: s, raw: None });
+                }
+            }
+        }
+    }
     // scripts that never end / recurse / allocate
     for (vc, script) in [("infinite-loop", "while true do end"), ("deep-recursion", "local function f(n) return f(n+1)+1 end return f(1)"), ("big-string", "return string.rep('x', 8*1024*1024)"),
         ("big-table", "local t={} for i=1,1000000 do t[i]=i end return #t"), ("error-object", "error({1,2,3})"), ("pcall-loop", "return redis.pcall('EVAL','return 1','0')")] {
@@ -436,7 +466,7 @@ pub fn parent(tier: &str) -> i32 {
     println!("  c06: cases={} verdicts={} outcomes={:?}", all.len(), results.len(), outcomes);
     report.coverage = json!({
         "evaluations": results.len(), "distinct_nontrivial": distinct.len(),
-        "rule": "finite product enumerated completely: every dispatched command (table + names scraped from the source) x every argument position x boundary values (numeric positions: 0, +-1, i32/i64/u64 min/max and max+1, 1e308, inf, nan, empty, ...; id positions: 0-0, max-max, malformed; word positions: empty, 64 KiB, invalid UTF-8, NUL/CRLF, a huge number) x key state (missing, string, list; thorough: all six types and a 10^5-element list and 1 MiB string), plus never-ending / exploding scripts and hostile byte frames (declared lengths up to 10^20, nesting up to 10^6, malformed frames, every proper prefix of every encoding of the codec corpus). One case = one request on a fresh connection followed by liveness (event loop alive, PONG on a new connection) and integrity (sentinel dataset of six types in db 1) probes.",
+        "rule": "finite product enumerated completely: every dispatched command (table + names scraped from the source) x every argument position x boundary values (numeric positions: 0, +-1, i32/i64/u64 min/max and max+1, 1e308, inf, nan, empty, ...; id positions: 0-0, max-max, malformed; word positions: empty, 64 KiB, invalid UTF-8, NUL/CRLF, a huge number) x key state (missing, string, list; thorough: all six types and a 10^5-element list and 1 MiB string), plus every multi-key command with the same key twice and with a second key of the same storage shard, never-ending / exploding scripts and hostile byte frames (declared lengths up to 10^20, nesting up to 10^6, malformed frames, every proper prefix of every encoding of the codec corpus). One case = one request on a fresh connection followed by liveness (event loop alive, PONG on a new connection) and integrity (sentinel dataset of six types in db 1) probes.",
         "samples": samples, "exhaustive": true, "distinct_outcomes": outcomes.iter().cloned().collect::<Vec<_>>(),
         "excluded": ["SHUTDOWN (documented purpose: exits)", "SYNC/PSYNC (hand the connection to replication)", "REPLICAOF/SLAVEOF with a host (connects out); NO ONE is a case"],
     });
